@@ -32,7 +32,7 @@ F_CALLABLE = ('base_metric:BaseMetricLearner._check_preprocessor',)
 F_PREPARE = ('base_metric:BaseMetricLearner._prepare_inputs',)
 
 PREPS = ('ndarray', 'ndarray-int', 'ndarray-F', 'list', 'callable', 'ndarray-nanrows')
-DTYPES = ('int8', 'int16', 'int32', 'int64', 'uint8', 'uint16', 'uint32', 'uint64', 'intp', 'pylist')
+DTYPES = ('int8', 'int16', 'int32', 'int64', 'uint8', 'uint16', 'uint32', 'uint64', 'intp', 'pylist', 'int64-F', 'int32-T')
 PATTERNS = ('permutation', 'repeats', 'reversed', 'sorted', 'nearly-constant')
 LKINDS = ('random', 'lowrank-2', 'rank-deficient', 'identity', 'lowrank-1')
 CALIB = (('accuracy', {}), ('f_beta', dict(beta=1.0)), ('max_tpr', dict(min_rate=0.5)), ('max_tnr', dict(min_rate=0.5)))
@@ -85,7 +85,14 @@ def index_array(rng, pattern, m, n, t):
 
 
 def as_dtype(idx, dt):
-  return idx.tolist() if dt == 'pylist' else idx.astype(dt)
+  if dt == 'pylist':
+    return idx.tolist()
+  if dt.endswith('-F'):       # the same indicators in column-major memory order
+    return np.asfortranarray(np.asarray(idx).astype(dt[:-2]))
+  if dt.endswith('-T'):       # a transposed view (what np.array([left, right]).T gives)
+    a = np.asarray(idx).astype(dt[:-2])
+    return np.ascontiguousarray(a.T).T if a.ndim == 2 else a
+  return idx.astype(dt)
 
 
 def single_thread():
@@ -450,8 +457,8 @@ def cases(tier, seed):
                     check_error(ml, cls, None, pdesc, prep_fit, bad_index, idx, 'fit', args), 'fit', desc))
   # ---- real fits
   cache = {}
-  variants = (('repeats', 'int32'), ('permutation', 'uint8'), ('sorted', 'int64'), ('repeats', 'pylist')) if quick else \
-      tuple((p, dt) for p in ('repeats', 'permutation', 'sorted') for dt in ('int8', 'int32', 'int64', 'uint8', 'uint64', 'pylist'))
+  variants = (('repeats', 'int32'), ('permutation', 'uint8'), ('sorted', 'int64'), ('repeats', 'pylist'), ('permutation', 'int64-F'), ('repeats', 'int32-T')) if quick else \
+      tuple((p, dt) for p in ('repeats', 'permutation', 'sorted') for dt in ('int8', 'int32', 'int64', 'uint8', 'uint64', 'pylist', 'int64-F', 'int32-T'))
   for cls in PUBLIC:
     for vi, (pattern, dt) in enumerate(variants):
       for prepkind in ('ndarray', 'list', 'callable') + (('ndarray-nanrows',) if vi == 0 else ()):
@@ -461,6 +468,41 @@ def cases(tier, seed):
                _guard(lambda cls=cls, prepkind=prepkind, pattern=pattern, dt=dt, s=s: check_fit(ml, cls, prepkind, pattern, dt, s, cache), 'fit', desc))
   # ---- the preprocessor is replaced on a used estimator
   yield from _switch_cases(ml, tier, seed, cache)
+  # ---- one integer feature
+  for cls in ('Covariance', 'LMNN'):
+    for prepkind in ('ndarray', 'list', 'callable'):
+      desc = '%s formed (n, 1) integer points, preprocessor=%s' % (cls, prepkind)
+      yield (desc, F_POINTS + (F_CALLABLE if prepkind == 'callable' else F_ARRAY),
+             _guard(lambda cls=cls, prepkind=prepkind: check_single_feature(ml, cls, prepkind, seed + 77), 'fit', desc))
+
+
+def check_single_feature(ml, cls, prepkind, seed):
+  """formed data with ONE feature and integer dtype, on an estimator that has a preprocessor: (n, 1) points / (n, t, 1) tuples are formed
+  data (not indicators) -- same results as without preprocessor, and the preprocessor is not consulted"""
+  rng = np.random.RandomState(seed)
+  n = 14
+  X = rng.permutation(n).reshape(n, 1).astype(np.int64)          # values that would all be valid row numbers of the pool
+  pool = rng.randn(n, 1) * 5.0
+  prep, _, log = make_prep(prepkind, pool)
+  inp = dict(estimator=cls, preprocessor=prepkind, formed_points=X.tolist(), note='one integer feature; every value is a valid row number')
+  with single_thread():
+    if cls == 'Covariance':
+      a = ml.Covariance().fit(X)
+      b = ml.Covariance(preprocessor=prep).fit(X)
+      outs = [('components_', a.components_, b.components_), ('transform', a.transform(X), b.transform(X))]
+    else:
+      y = np.arange(n) % 2
+      a = ml.LMNN(n_neighbors=2, max_iter=3, random_state=0).fit(X, y)
+      b = ml.LMNN(n_neighbors=2, max_iter=3, random_state=0, preprocessor=prep).fit(X, y)
+      P = np.stack([X[:6], X[6:12]], axis=1)
+      outs = [('components_', a.components_, b.components_), ('transform', a.transform(X), b.transform(X)), ('pair_distance', a.pair_distance(P), b.pair_distance(P))]
+  for nm, u, v in outs:
+    if not same(u, v):
+      return dict(tag='fit/preprocessor-not-consulted-on-formed-data', observed='%s of the estimator with a preprocessor differs on formed single-feature integer data: %r vs %r'
+                  % (nm, np.asarray(v).ravel()[:6].tolist(), np.asarray(u).ravel()[:6].tolist()), input=inp)
+  if log is not None and len(log) != 0:
+    return dict(tag='fit/preprocessor-not-consulted-on-formed-data', observed='callable preprocessor called %d time(s) on formed data' % len(log), input=inp)
+  return None
 
 
 def _switch_cases(ml, tier, seed, cache):
